@@ -1024,6 +1024,10 @@ class Interp:
             key = _expr_key(test.args[0])
             names = _class_names(test.args[1])
             if key and names:
+                old = env.facts.get(key)
+                if not positive and old is not None and old[0] == "nota":
+                    # `if isinstance(x, A): return ...` followed by `if isinstance(x, B): return ...`: x is neither afterwards
+                    names = list(old[1]) + [n for n in names if n not in old[1]]
                 env.facts[key] = ("isa" if positive else "nota", tuple(names))
             return env
         if isinstance(test, ast.Compare) and len(test.ops) == 1 and isinstance(test.comparators[0], ast.Constant) and test.comparators[0].value is None:
